@@ -28,7 +28,7 @@ from srctools.filesys import VirtualFileSystem  # noqa: E402
 from srctools.instancing import FixupStyle, Instance, InstanceFile, collapse_all, collapse_one  # noqa: E402
 from srctools.keyvalues import Keyvalues  # noqa: E402
 from srctools.math import Matrix, Vec  # noqa: E402
-from srctools.vmf import VMF, Entity, EntityFixup, FixupValue, Output, Side, Solid, UVAxis  # noqa: E402
+from srctools.vmf import VMF, Entity, EntityFixup, FixupValue, Output, Side, Solid, UVAxis, VisGroup  # noqa: E402
 
 logging.disable(logging.CRITICAL)      # "Unknown keyvalue" warnings are expected
 RC_ATTR = instancing.RECUR_COUNT_ATTR
@@ -205,7 +205,8 @@ def proj_ent_r(e: Entity) -> dict:
     cls = e['classname']
     return {'cls': cls, 'keys': [{'k': k, 'r': proj_value(key_tag(cls, k), v)} for k, v in e.items()],
             'fix': proj_fix(e._fixup), 'outs': [cp(o.target) for o in e.outputs],
-            'solids': [[proj_side(s) for s in b.sides] for b in e.solids],
+            'vis': bool(not e.hidden and e.vis_shown),
+            'solids': [proj_brush_t(b) for b in e.solids],
             'rc': int(getattr(e, RC_ATTR, 0))}
 
 
@@ -261,17 +262,25 @@ class Collapser:
         self.count = 0
 
     def collapse(self, vmf: VMF, inst: Instance, ang: list, file: InstanceFile, extra_sig: dict | None = None,
-                 engine_cache=None):
+                 engine_cache=None, vg: int = 0):
         """One collapse_one call.  Returns (record, new brushes, new ents) - the record is written."""
         t_before = proj_template(file.vmf)
         text_before = file.vmf.export(inc_version=False)
         old_b = {id(b) for b in vmf.brushes}
         old_e = {id(e) for e in vmf.entities}
         iabs = inst_abs(inst, ang)
-        if engine_cache is None:
-            collapse_one(vmf, inst, file)
-        else:
-            collapse_one(vmf, inst, file, engine_cache=engine_cache)
+        # visgroup handling: 0 strip (default), 1 keep the file's visgroups, 2 put everything into one visgroup
+        kw = {}
+        if vg == 1:
+            kw['visgroup'] = True
+        elif vg == 2:
+            group = VisGroup(vmf, f'inst_{inst.name}')
+            vmf.vis_tree.append(group)
+            kw['visgroup'] = group
+        if engine_cache is not None:
+            kw['engine_cache'] = engine_cache
+        collapse_one(vmf, inst, file, **kw)
+        extra_sig = dict(extra_sig or {}, visgroup=vg)
         new_b = [b for b in vmf.brushes if id(b) not in old_b]
         new_e = [e for e in vmf.entities if id(e) not in old_e]
         text_after = file.vmf.export(inc_version=False)
@@ -287,7 +296,8 @@ class Collapser:
     def record(self, iabs, tpl, tpl2, hashes, new_b, new_e, phase, extra_sig=None) -> dict:
         bad = ''
         try:
-            res = {'brushes': [[proj_side(s) for s in b.sides] for b in new_b], 'ents': [proj_ent_r(e) for e in new_e]}
+            # every new object with its visibility (hidden / hidden by a visgroup): TLC looks at the visible ones
+            res = {'brushes': [proj_brush_t(b) for b in new_b], 'ents': [proj_ent_r(e) for e in new_e]}
         except (OffLattice, ValueError) as exc:
             bad = str(exc) or 'projection failed'
             res = {'brushes': [], 'ents': []}
@@ -432,7 +442,61 @@ def t_unknown_var(vmf: VMF) -> None:
     vmf.create_ent('info_target', targetname='unk', origin='0 0 0', angles='0 0 0', foo='pre$tgt')
 
 
-TEMPLATES = {'brush': t_brush, 'ents': t_ents, 'nest': t_nest, 'nestplain': t_nest_plain, 'angles': t_angles,
+def mixed_solids(vmf: VMF, ent: Entity, at: list, mat: str) -> None:
+    """Give a brush entity four solids: visible, individually hidden, hidden through a visgroup, visible."""
+    for j, mode in enumerate(('vis', 'hidden', 'vishidden', 'vis')):
+        a = [at[0] + 24 * j, at[1], at[2]]
+        b = vmf.make_prism(Vec(*a), Vec(a[0] + 16, a[1] + 8, a[2] + 4 + j), mat=f'{mat}_{mode}{j}').solid
+        b.sides[0].uaxis = UVAxis(1, 0, 0, 3 + j, 0.5)
+        if mode == 'hidden':
+            b.hidden = True
+        elif mode == 'vishidden':
+            b.vis_shown = False
+        ent.solids.append(b)
+
+
+def t_hidsolid(vmf: VMF) -> None:
+    """Visibility: visible brush entities owning visible and hidden solids, hidden brush entities, hidden world
+    brushes, a user visgroup with members."""
+    vg = VisGroup(vmf, 'grp')
+    vmf.vis_tree.append(vg)
+    child = VisGroup(vmf, 'child')
+    vg.child_groups.append(child)
+    det = vmf.create_ent('func_detail')
+    mixed_solids(vmf, det, [0, 0, 0], 'DET')
+    door = vmf.create_ent('func_door', targetname='door', origin='8 8 8', movedir='0 90 0')
+    mixed_solids(vmf, door, [0, 64, 0], 'DOOR')
+    door.visgroup_ids.add(vg.id)
+    door.solids[0].visgroup_ids.add(child.id)
+    allvis = vmf.create_ent('func_brush', targetname='allvis', origin='0 0 0')
+    allvis.solids.append(vmf.make_prism(Vec(0, 128, 0), Vec(8, 136, 8), mat='ALLVIS').solid)
+    onlyhid = vmf.create_ent('func_brush', targetname='onlyhidden', origin='0 0 0')
+    h = vmf.make_prism(Vec(0, 160, 0), Vec(8, 168, 8), mat='ONLYHID').solid
+    h.hidden = True
+    onlyhid.solids.append(h)
+    hid_ent = vmf.create_ent('func_detail')
+    hid_ent.hidden = True
+    hid_ent.solids.append(vmf.make_prism(Vec(0, 192, 0), Vec(8, 200, 8), mat='HIDENT').solid)
+    vh_ent = vmf.create_ent('func_brush', targetname='vishiddenent', origin='0 0 0')
+    vh_ent.vis_shown = False
+    vh_ent.solids.append(vmf.make_prism(Vec(0, 224, 0), Vec(8, 232, 8), mat='VHENT').solid)
+    w1 = vmf.make_prism(Vec(-64, 0, 0), Vec(-32, 16, 8), mat='W1').solid
+    w1.visgroup_ids.add(vg.id)
+    vmf.add_brush(w1)
+    w2 = vmf.make_prism(Vec(-64, 32, 0), Vec(-32, 48, 8), mat='W2HID').solid
+    w2.hidden = True
+    vmf.add_brush(w2)
+    w3 = vmf.make_prism(Vec(-64, 64, 0), Vec(-32, 80, 8), mat='W3VH').solid
+    w3.vis_shown = False
+    vmf.add_brush(w3)
+    vmf.add_brush(vmf.make_prism(Vec(-64, 96, 0), Vec(-32, 112, 8), mat='W4').solid)
+    # an overlay on faces of visible solids only
+    vmf.create_ent('info_overlay', targetname='ov', origin='0 0 0', angles='0 0 0',
+                   sides=f'{det.solids[0].sides[0].id} {det.solids[3].sides[1].id} {w1.sides[0].id} {w2.sides[0].id}',
+                   basisorigin='0 0 0', basisu='1 0 0', basisv='0 1 0', basisnormal='0 0 1')
+
+
+TEMPLATES = {'hidsolid': t_hidsolid, 'brush': t_brush, 'ents': t_ents, 'nest': t_nest, 'nestplain': t_nest_plain, 'angles': t_angles,
              'anglesvar': t_angles_var, 'pitchsound': t_pitch_sound, 'unknownvar': t_unknown_var}
 
 
@@ -453,7 +517,7 @@ def run_scen(sc: dict, out: hlib.RecWriter, src: str = 'scen') -> None:
     done = []
     for n, i in enumerate(sc['insts']):
         inst = make_instance(uncp(i['name']), i['pos'], i['ang'], i['style'], FIX_TABLES[i['fix']])
-        rec, nb, ne = col.collapse(vmf, inst, i['ang'], file, {'template': sc['t'], 'seq': n})
+        rec, nb, ne = col.collapse(vmf, inst, i['ang'], file, {'template': sc['t'], 'seq': n}, vg=sc.get('vg', 0))
         done.append((rec['inst'], nb, ne, rec['sig']['nested_fixup_renamed']))
     if len(done) > 1:
         # results of repeated collapses differ only by placement: judged against the pristine template at the end
@@ -461,7 +525,7 @@ def run_scen(sc: dict, out: hlib.RecWriter, src: str = 'scen') -> None:
         tainted = any(d[3] for d in done)     # some collapse of the sequence renamed a shared $fixup value
         for n, (iabs, nb, ne, _) in enumerate(done):
             rec = col.record(iabs, pristine, proj_template(file.vmf), [h0, h1], nb, ne, 'final',
-                             {'template': sc['t'], 'seq': n, 'nested_fixup_renamed': tainted})
+                             {'template': sc['t'], 'seq': n, 'nested_fixup_renamed': tainted, 'visgroup': sc.get('vg', 0)})
             out.write(rec)
 
 
@@ -521,6 +585,12 @@ def abs_to_real(vmf: VMF, e: dict) -> Entity:
     return ent
 
 
+def is_abs(ent: Entity) -> bool:
+    """The abstract machine follows markers and instances; the brush entities of the files are judged by the
+    detailed 'collapse' records."""
+    return ent['classname'] in ('info_target', 'func_instance')
+
+
 def real_to_abs(ent: Entity) -> dict:
     if ent['classname'] == 'func_instance':
         return {'kind': 'inst', 'name': cp(ent['targetname']), 'pos': lat_vec(ent['origin']), 'ang': lat_ang(ent['angles']),
@@ -543,6 +613,11 @@ def files_of(tmpl: dict) -> VirtualFileSystem:
         p.top.uaxis = UVAxis(1, 0, 0, 7, 0.5)
         p.east.vaxis = UVAxis(0, 0, -1, -2, 1.0)
         v.add_brush(p.solid)
+        # a visible brush entity with visible and individually hidden solids, and a hidden world brush (parsed path)
+        mixed_solids(v, v.create_ent('func_detail'), [0, 32, 0], f'FD{f}')
+        hw = v.make_prism(Vec(0, 64, 0), Vec(8, 72, 8), mat='HW').solid
+        hw.hidden = True
+        v.add_brush(hw)
         data[f'f{f}.vmf'] = v.export(inc_version=False)
     return CountingFS(data)
 
@@ -577,7 +652,7 @@ class World:
         self.renamed_shared = False
 
     def project(self) -> dict:
-        return {'map': [real_to_abs(e) for e in self.vmf.entities], 'todo': [real_to_abs(e) for e in self.todo],
+        return {'map': [real_to_abs(e) for e in self.vmf.entities if is_abs(e)], 'todo': [real_to_abs(e) for e in self.todo],
                 'round': self.round}
 
     def apply(self, a: dict) -> list:
@@ -748,7 +823,7 @@ def run_all(tmpl: dict, ents: list, limit: int, out: hlib.RecWriter, src: str, h
         instancing.collapse_one = orig
     bad = ''
     try:
-        final = [real_to_abs(e) for e in vmf.entities]
+        final = [real_to_abs(e) for e in vmf.entities if is_abs(e)]
     except OffLattice as exc:
         bad = str(exc)
         final = []
@@ -895,6 +970,14 @@ def random_template(rng: random.Random) -> InstanceFile:
         if kind == 'func_door':
             a = rv(512)
             ent.solids.append(vmf.make_prism(Vec(*a), Vec(a[0] + 16, a[1] + 32, a[2] + 8), mat='D').solid)
+            for j in range(rng.randint(0, 2)):     # further solids, some individually hidden
+                extra = vmf.make_prism(Vec(a[0], a[1], a[2] + 16 * (j + 1)), Vec(a[0] + 8, a[1] + 8, a[2] + 16 * (j + 1) + 8), mat=f'D{j}').solid
+                r = rng.random()
+                if r < 0.4:
+                    extra.hidden = True
+                elif r < 0.6:
+                    extra.vis_shown = False
+                ent.solids.append(extra)
         for _ in range(rng.randint(0, 3)):
             ent.add_out(Output(rng.choice(['OnTrigger', 'OnUser1']), rng.choice(names), 'Kill', rng.choice(['', '$x'])))
         if rng.random() < 0.15:
@@ -922,7 +1005,7 @@ def random_case(seed_n: int, out: hlib.RecWriter) -> None:
         ang = [rng.randint(0, 3) for _ in range(3)]
         inst = make_instance(rng.choice(['A', 'inst_7', 'Ünï', 'a-b', '@I']), [rng.randint(-8192, 8192) for _ in range(3)], ang,
                              rng.randint(0, 2), rng.choice(tables), rc=rng.randint(0, 3))
-        col.collapse(vmf, inst, ang, file, {'seq': k})
+        col.collapse(vmf, inst, ang, file, {'seq': k}, vg=rng.choice([0, 0, 1, 2]))
 
 
 # ------------------------------------------------------------------ mode: numeric residue
